@@ -80,3 +80,59 @@ def uni_world(S, d0=6, d1=18, q0=True, npos=1, fee=0.05, tag=""):
 @native
 def prices(d):
     return pd.Series(d, dtype=object)
+
+
+# ------------------------------------------------------------------------------------------------ Aave
+from . import demeter_models  # noqa: F401  (installs models)
+from demeter.aave import AaveV3Market
+from demeter.aave._typing import SupplyInfo, BorrowInfo, AaveMarketStatus
+
+AAVE_RP_CSV = "/repo/tests/aave_risk_parameters/Aave Protocol Parameter polygon.csv"
+AAVE_COLS = ("liquidity_rate", "stable_borrow_rate", "variable_borrow_rate", "liquidity_index", "variable_borrow_index")
+
+
+@native
+def aave_status(S, names, tag):
+    """one data row: MultiIndex (token, column) -> symbol; indices > 0, rates >= 0"""
+    d = {}
+    for n in names:
+        d[(n, "liquidity_rate")] = S.dec(f"{tag}{n}_liquidity_rate", 0, 1)
+        d[(n, "stable_borrow_rate")] = S.dec(f"{tag}{n}_stable_borrow_rate", 0, 1)
+        d[(n, "variable_borrow_rate")] = S.dec(f"{tag}{n}_variable_borrow_rate", 0, 1)
+        d[(n, "liquidity_index")] = S.dec(f"{tag}{n}_liquidity_index", 1, 100)
+        d[(n, "variable_borrow_index")] = S.dec(f"{tag}{n}_variable_borrow_index", 1, 100)
+    return pd.Series(d, dtype=object)
+
+
+@native
+def aave_world(S, tokens=("TKA", "TKB"), supplies=("TKA",), borrows=("TKB",), tag="", wallet=None):
+    """Broker + AaveV3Market at bar T0; which tokens are supplied / borrowed is the (concrete) shape, every number,
+    collateral flag and risk parameter is symbolic.  Well-formedness of the inputs (the 'type invariant' of Aave data):
+    prices > 0, indices >= 1, 0 <= LTV <= LT <= 1, bonus >= 0, present positions have base_amount > 0."""
+    import os
+    repo = os.environ.get("DEMETER_REPO", "/repo")
+    toks = {n: TokenInfo(n, 18) for n in tokens}
+    actions = []
+    broker = Broker(record_action_callback=actions.append)
+    market = AaveV3Market(MarketInfo("aave", MarketTypeEnum.aave_v3),
+                          os.path.join(repo, "tests/aave_risk_parameters/Aave Protocol Parameter polygon.csv"), list(toks.values()))
+    rp = {}
+    for n in tokens:
+        ltv = S.dec(f"{tag}{n}_LTV", 0, 1)
+        lt = S.dec(f"{tag}{n}_LT", ltv, 1)          # LTV <= liquidation threshold <= 1
+        rp[n] = {"usageAsCollateralEnabled": S.bool(f"{tag}{n}_canCollateral"), "baseLTVasCollateral": ltv,
+                 "reserveLiquidationThreshold": lt, "reserveLiquidationBonus": S.dec(f"{tag}{n}_bonus", 0, 1),
+                 "borrowingEnabled": S.bool(f"{tag}{n}_canBorrow")}
+    market._risk_parameters = pd.DataFrame.from_dict(rp, orient="index").astype(object)
+    market._market_status = AaveMarketStatus(T0, aave_status(S, tokens, tag))
+    market._price_status = pd.Series({n: S.dec(f"{tag}{n}_price", 0, 10 ** 6, lo_strict=True) for n in tokens}, dtype=object)
+    broker.add_market(market)
+    for n in (wallet if wallet is not None else tokens):
+        broker._assets[toks[n]] = Asset(toks[n], S.dec(f"{tag}wallet_{n}", 0, 10 ** 12))
+    for n in supplies:
+        market._supplies[toks[n]] = SupplyInfo(S.dec(f"{tag}supply_{n}_base", 0, 10 ** 12, lo_strict=True),
+                                               S.bool(f"{tag}supply_{n}_collateral", only_if=rp[n]["usageAsCollateralEnabled"]),
+                                               S.dec(f"{tag}supply_{n}_begin_index", 1, 100))
+    for n in borrows:
+        market._borrows[toks[n]] = BorrowInfo(S.dec(f"{tag}borrow_{n}_base", 0, 10 ** 12, lo_strict=True), S.dec(f"{tag}borrow_{n}_begin_index", 1, 100))
+    return World(broker=broker, market=market, tokens=toks, actions=actions, rp=rp)
